@@ -213,6 +213,16 @@ class Builder:
             M = self.array({"n": r["n"], "m": r.get("m", r["n"]), "dtype": r.get("dtype", "f8"),
                             "seed": r.get("seed", 0), "sym": r.get("sym", "gen")})
             return ops.LinearOperator(M.dtype, M.shape, matmat=_Matmat(M))
+        if k == "churn":
+            # a long-running session: `count` operators are built from the given recipes and thrown away at once (really
+            # freed: their containers go back to CPython's free lists, their addresses are handed out again)
+            import gc
+            junk = []
+            for i in range(r.get("count", 600)):
+                junk.append(B(r["of"][i % len(r["of"])]))  # all alive at the same time (distinct addresses) ...
+            del junk[:]  # ... and all freed at once
+            gc.collect()
+            return B(r["then"]) if "then" in r else B(r["of"][0])
         if k == "flood":
             # many parametric classes of one family in one step: `count` composites whose first part is an instance of a
             # FRESH user class each (Product[Scaled, Dense], ... -- every one a new concrete class of the family)
